@@ -36,6 +36,12 @@ def c13_groups(tier):
     return g
 
 
+def c13_ser_groups(tier):
+    rooms = list(range(0, 40, 3)) + [-k for k in range(1, 30)]
+    return [dict(id='M18.ser_sink', desc='Serializer::serialize (whole file, one instance with one property) into a sink with room for k bytes returns an error for every k below the file size - nothing is held back in a buffer whose flush error is lost',
+                 bounds='k in 0..39 step 3 and the last 29 offsets of the file', cases=[dict(what='sersink', room=r) for r in rooms], budget=300)]
+
+
 KIND_OPTS = {
     'String': {'len': [1, 2]}, 'NumberSequence': {'len': [1, 2]}, 'ColorSequence': {'len': [1, 2]}, 'PhysicalProperties': {'custom': [True, False]},
     'CFrame': {'rot': [0, 2]}, 'BrickColor': {'numbers': [194, 1032]}, 'Font': {'weight': [700, 400], 'style': [1, 0], 'face': [1, 0]}, 'OptionalCFrame': {'present': [True, False]},
@@ -89,13 +95,13 @@ def c03_groups(tier):
 
 def boundary_sizes(files, crates=None):
     """sizes at which length-dependent obligations are additionally run: 65 (beyond the default loop bound) and c, c+1 for
-    every constant c in (64, 8192] that the reader code in `files` uses (vlib/mirsym/mining.py)"""
+    every constant c in (16, 8192] that the reader code in `files` uses (vlib/mirsym/mining.py)"""
     from ..mirsym import binrun, mining
     from ..mirsym.program import Program
     from ..mirsym import mirdump
     prog = Program(crates, mirdump.MIR_DIR) if crates else binrun._load()
     consts = mining.mined_sizes(prog, files)
-    return sorted({65} | {c for c in consts} | {c + 1 for c in consts}), consts
+    return sorted({65} | {c for c in consts} | {c + 1 for c in consts} | {c - 1 for c in consts}), consts
 
 
 def long_group():
@@ -114,6 +120,11 @@ SER_TREES = [
     dict(shape=[-1, 0, 0, 2], classes=['DataModel', 'A', 'B', 'A'], refs={1: 2, 3: 1}, roots=[2]),
     dict(shape=[-1, 0, 0, 1, 1, 2], classes=['DataModel', 'B', 'A', 'C', 'A', 'B'], refs={3: 5, 5: 3, 4: 4}),
     dict(shape=[-1, 0, 1, 0, 3], classes=['DataModel', 'A', 'A', 'A', 'B'], refs={2: 4, 4: 1}, roots=[3, 1]),
+    # Content values: objects inside / outside the written set / null, a URI, none
+    dict(shape=[-1, 0, 0, 2, 2], classes=['DataModel', 'A', 'A', 'A', 'A'], crefs={1: 3, 2: 'outside', 3: ('uri', 0x61), 4: 'none'}),
+    dict(shape=[-1, 0, 0, 2], classes=['DataModel', 'A', 'B', 'A'], crefs={1: 2, 3: 1}, roots=[2]),
+    # service classes (object format 1: one marker byte per instance)
+    dict(shape=[-1, 0, 0, 0, 1], classes=['DataModel', 'S', 'S', 'A', 'S'], services=['S'], db={'S': dict(properties={}, tags=['Service'])}),
 ]
 
 
